@@ -829,7 +829,7 @@ func (x *Exec) convert(st *State, v Value, from, to types.Type, pos token.Pos) V
 			}
 			return Sc{c.mk("(_ to_fp_unsigned 11 53)", SF64, c.mk("RNE", "RoundingMode"), t)}
 		}
-		return Sc{c.mk("(_ to_fp 11 53)", SF64, c.mk("RNE", "RoundingMode"), c.mk("to_real", SReal, t))}
+		return Sc{x.intToFloat(t)}
 	case isFloat(from) && isInteger(to):
 		return Sc{x.floatToInt(x.scalar(v), tu.(*types.Basic))}
 	case isFloat(from) && isFloat(to):
@@ -882,6 +882,25 @@ func (x *Exec) convert(st *State, v Value, from, to types.Type, pos token.Pos) V
 	panic(unsupported("convert %s -> %s", from, to))
 }
 
+// intToFloat (math integer mode): literals convert exactly; otherwise an uninterpreted function
+// with sign facts (see floatToInt).
+func (x *Exec) intToFloat(t *Term) *Term {
+	c := x.c
+	if v, ok := c.litVal(t); ok {
+		f, _ := new(big.Float).SetInt(v).Float64()
+		return c.F64Lit(f)
+	}
+	r := c.App("i2f", SF64, t)
+	fact := c.And(c.Not(c.FOp("fp.isNaN", r)), c.Not(c.FOp("fp.isInfinite", r)),
+		c.Eq(c.Le(c.Int(0), t), c.FOp("fp.geq", r, c.F64Lit(0))),
+		c.Eq(c.Le(c.Int(1), t), c.FOp("fp.geq", r, c.F64Lit(1))))
+	if !x.ranged[fact] && !fact.bound {
+		x.ranged[fact] = true
+		x.hyps = append(x.hyps, fact)
+	}
+	return r
+}
+
 // floatToInt: amd64 semantics (CVTTSD2SQ): NaN and out-of-range give 0x8000000000000000;
 // narrower targets truncate the 64-bit result.
 func (x *Exec) floatToInt(f *Term, to *types.Basic) *Term {
@@ -910,8 +929,23 @@ func (x *Exec) floatToInt(f *Term, to *types.Basic) *Term {
 	lo := c.F64Lit(-9223372036854775808.0)
 	hi := c.F64Lit(9223372036854775808.0)
 	inr := c.And(c.FOp("fp.geq", f, lo), c.FOp("fp.lt", f, hi))
-	conv := c.mk("to_int", SInt, c.mk("fp.to_real", SReal, c.FOp("fp.trunc", f)))
-	r = c.Ite(inr, conv, c.IntBig(new(big.Int).Neg(new(big.Int).Lsh(big1, 63))))
+	// math integer mode: the in-range conversion is an uninterpreted function of the float with
+	// range and sign facts (mixing Int, Real and FloatingPoint makes queries intractable); functions
+	// whose proof needs the exact conversion are encoded with 64-bit vectors (ints bv64)
+	x.ledger["math integer mode: float->int and int->float conversions are uninterpreted functions with range/sign facts (exact in bv64 functions)"] = true
+	conv := c.App("f2i", SInt, f)
+	min63 := new(big.Int).Neg(new(big.Int).Lsh(big1, 63))
+	max63 := new(big.Int).Sub(new(big.Int).Lsh(big1, 63), big1)
+	fact := c.And(c.InRange(conv, min63, max63),
+		c.Implies(c.FOp("fp.geq", f, c.F64Lit(0)), c.Le(c.Int(0), conv)),
+		c.Implies(c.FOp("fp.leq", f, c.F64Lit(0)), c.Le(conv, c.Int(0))),
+		c.Implies(c.FOp("fp.geq", f, c.F64Lit(1)), c.Le(c.Int(1), conv)),
+		c.Implies(c.FOp("fp.lt", f, c.F64Lit(1)), c.Le(conv, c.Int(0))))
+	if !x.ranged[fact] && !fact.bound {
+		x.ranged[fact] = true
+		x.hyps = append(x.hyps, fact)
+	}
+	r = c.Ite(inr, conv, c.IntBig(min63))
 	if bits < 64 {
 		if signed {
 			r = c.SignWrap(r, bits)
